@@ -7,6 +7,8 @@
    oracle.  "fresh" blocks are blocks that did not exist before the call: storage that nothing
    else can reach.  The metadata / slice containers are covered by the sanitizer run only.
    Statements only; proofs in MemFacts.v. *)
+From Sbdf Require Import Imp ImpCall Gen.Prog ImpFactsFrame ImpFactsHeap ImpFactsCells.
+From Coq Require Import List.
 From Sbdf Require Import Mem MemFacts.
 
 (* a constructor either returns an object made of fresh blocks only, leaving every other block
@@ -106,3 +108,45 @@ Theorem C12_bit_array_create : forall s src ty count blocks, fresh_inv s -> obj_
   end.
 Proof. exact va_create_bit_spec. Qed.
 Print Assumptions C12_bit_array_create.
+
+(* ---- sbdf_obj_destroy and sbdf_va_destroy from the source (src/object.c, src/valuearray.c; translated on
+   every run; structs live in the cell heap of Imp.v where free marks a block released and any later
+   access to it - a second free included - is a fault of the interpreter).
+   `destroys m h ob h'` describes an object at header block ob: for string / binary types a pointer
+   array whose cells all point at stored elements (each handed to sbdf_dispose_array exactly once, in
+   order), for the other types a data pointer into the byte memory.  The call runs to completion - so
+   it touches no released block and frees nothing twice - and leaves exactly the object's own blocks
+   released: h' = kill ob (kill db h) resp. kill ob h; every other block and the byte memory are as
+   before.  (Release of the element blocks themselves happens in the byte memory, whose allocator is
+   not tracked here: that part of C12 rests on the L2 ledger theorems above and the sanitizer runs.) *)
+Theorem C12_source_obj_destroy : forall k sx m h ob h', destroys m h ob h' ->
+  exists f0, forall f, (f0 <= f)%nat -> exists fin,
+    callC prog_env f prog_sbdf_obj_destroy [VCell ob 0] m k sx h = ONormal fin /\ inb fin = m /\ Imp.lookup cells_var (vars fin) = Some (VHeap h').
+Proof. exact obj_destroy_source. Qed.
+Print Assumptions C12_source_obj_destroy.
+
+Theorem C12_source_obj_destroy_effect : forall m h ob h', destroys m h ob h' ->
+  nth_error h' ob = Some None /\
+  ((exists db, h' = kill ob (kill db h) /\ ob <> db) \/ h' = kill ob h) /\
+  (forall b c hh, b <> c -> nth_error (kill b hh) c = nth_error hh c).
+Proof.
+  intros m h ob h' D. split; [exact (destroys_released m h ob h' D)|]. split; [|intros; now apply kill_other].
+  destruct D as [(db & ty & cells & data & _ & _ & H3 & _ & _ & _ & _ & ->)|(ty & cnt & dp & _ & _ & _ & ->)]; [left; exists db; split; [reflexivity|exact H3]|right; reflexivity].
+Qed.
+Print Assumptions C12_source_obj_destroy_effect.
+
+Theorem C12_source_va_destroy : forall k sx m h vb ty enc v1 o1 o2 h1 h2,
+  va_block h vb ty enc v1 o1 o2 -> destroys_opt m h o1 h1 -> destroys_opt m h1 o2 h2 ->
+  nth_error h1 vb = nth_error h vb -> nth_error h2 vb = nth_error h vb ->
+  exists f0, forall f, (f0 <= f)%nat -> exists fin,
+    callC prog_env f prog_sbdf_va_destroy [VCell vb 0] m k sx h = ONormal fin /\ inb fin = m /\ Imp.lookup cells_var (vars fin) = Some (VHeap (kill vb h2)).
+Proof. exact va_destroy_source. Qed.
+Print Assumptions C12_source_va_destroy.
+
+Example C12_source_nonvacuous :
+  destroys [3; 0; 0; 0; 97; 98; 0; 2; 0; 0; 0; 99; 0] [Some [VInt 10; VInt 2; VCell 1 0]; Some [VPtr RIn 4; VPtr RIn 11]] 0 [None; None].
+Proof.
+  left. exists 1%nat, 10, [VPtr RIn 4; VPtr RIn 11], (VCell 1 0).
+  split; [reflexivity|]. split; [reflexivity|]. split; [discriminate|]. split; [discriminate|]. split; [reflexivity|].
+  split; [repeat constructor; eexists; (split; [reflexivity|cbn; lia])|]. split; [cbn; unfold int_max; lia|reflexivity].
+Qed.
